@@ -84,6 +84,7 @@ type sysDef struct {
 	pkgDecor []string // per-target-package decorations
 	applyPkg func(u *Universe, pkg string, d string)
 	mgmt     []string // root-managed versions per target (Maven)
+	valid    func(u *Universe) bool
 }
 
 // tmplReq is one requirement of a template: dependent version index, requirement.
@@ -186,6 +187,9 @@ func newSpace(def sysDef, base string, tmpl []tmplReq) *Space {
 				u.Vers[0].Reqs = append(u.Vers[0].Reqs, Req{Pkg: def.targets[p.Slot-mgmtBase], Ver: def.mgmt[p.Opt], Origin: "management"})
 			}
 		}
+		if def.valid != nil && !def.valid(&u) {
+			return u, false
+		}
 		reach := reachablePkgs(root, edges)
 		for _, p := range picks {
 			switch {
@@ -267,6 +271,21 @@ func npmDef() sysDef {
 			case "alias":
 				r.Alias = "x"
 			}
+		},
+		// package.json keys are unique: one version cannot declare two dependencies under one alias
+		valid: func(u *Universe) bool {
+			for _, v := range u.Vers {
+				n := 0
+				for _, r := range v.Reqs {
+					if r.Alias != "" {
+						n++
+					}
+				}
+				if n > 1 {
+					return false
+				}
+			}
+			return true
 		},
 		verDecor: []string{"blocked"},
 		applyVer: func(u *Universe, vi int, d string) { u.Vers[vi].Blocked = true },
